@@ -41,9 +41,9 @@ func c11Core(tier string) int {
 }
 
 func (*C11) Plan(tier string) orch.Plan {
-	extra := 600
+	extra := 4000
 	if tier == "thorough" {
-		extra = 40000
+		extra = 300000
 	}
 	return orch.Plan{Episodes: c11Core(tier) + extra, Batch: 150, Exhaustive: true,
 		Assumptions: []string{"exhaustive: true refers to the enumerated core (all sequences of <= K mode calls over two loggers); the longer sequences are sampled"}}
